@@ -7,7 +7,7 @@ def run(chk):
     thorough = chk.tier == "thorough"
     chk.lean(thorough_checker=thorough)
     allops = []
-    for variant in ("vsbx", "noop"):
+    for variant in ("vsbx", "noop", "dylib"):
         binp, log = cc.build(variant)
         if binp is None:
             chk.fail(f"harness h_calls ({variant}) does not compile against the current headers", {"log_tail": log[-3000:]}, found=False)
@@ -28,7 +28,7 @@ def run(chk):
                 d[pos] = fl
                 ops.append(f"{cmd} " + base.format(**d))
         ops = list(dict.fromkeys(ops))
-        core.differential(chk, ops, binp, cc.oracle_c19, label=f"transition traces ({variant})")
+        core.differential(chk, ops, binp, cc.oracle_c19, label=f"transition traces ({variant})", impl_env=cc.env_for(variant))
         allops += ops
     chk.cov["distinct_nontrivial"] = len(set(allops))
     chk.cov["input_distribution"] = {"trees": len(allops), "with_fault": sum(1 for o in allops if any(f" {x} " in o for x in "abr"))}
